@@ -28,7 +28,7 @@ def norm(s):
 
 
 def cases(tier, seed):
-    base = shapes.space_depth2(tier, contexts=["def", "member_opt", "member_req", "ext_payload", "vec_item", "root"] if tier == "quick" else None)
+    base = shapes.space_depth2(tier, contexts=["def", "member_opt", "member_req", "ext_payload", "vec_item", "root", "ref_alias"] if tier == "quick" else None)
     base += shapes.twins(tier)
     base += shapes.order_pairs(tier)
     if tier != "quick":
